@@ -121,9 +121,11 @@ def one_run(cfg, prefix, template):
             d = os.path.join(work, "ix")
             shutil.copytree(template, d)
             st = S.make_sched_storage(sch, d, lockreg, mutlog)
+            sch.state_fn = lambda: S.dir_digest(d)
             get_ix = lambda: st.open_index()
         else:
             st = S.make_sched_ram_storage(sch)
+            sch.state_fn = lambda: S.ram_digest(st)
             ix0 = st.create_index(schema())
             w = ix0.writer()
             w.add_document(key=u"init", text=u"t init")
@@ -249,6 +251,7 @@ def explore_cfg(cfg, bound, max_execs, acc):
     template = make_template() if cfg["storage"] == "file" else None
     outcomes = {}
     first = {}
+    allstates = set()
 
     def make_run(prefix):
         return one_run(cfg, prefix, template)
@@ -259,6 +262,9 @@ def explore_cfg(cfg, bound, max_execs, acc):
         acc.count("traces_validated_against_impl")
         acc.count("evaluations")
         acc.count("transitions", len(sch.decisions))
+        new = sch.states - allstates
+        allstates.update(new)
+        acc.count("states", len(new))
         if any(c for c in sch.choices):
             acc.count("distinct_nontrivial")
         for kind, text in outcome["problems"]:
@@ -284,7 +290,6 @@ def explore_cfg(cfg, bound, max_execs, acc):
     for b in range(0, bound + 1):
         st_b = S.explore(make_run, b, max_execs, on_exec)
         stats = st_b
-        acc.count("states", st_b["decisions"])
         if st_b["capped"]:
             break
         completed = b
@@ -376,8 +381,9 @@ def run(ctx):
     ctx.rule = ("for each configuration (2-3 writer threads x endings {commit, cancel, exception in with-block, "
                 "with-block ok} x {no timeout, polling timeout} x {FileStorage+flock, RamStorage}): every schedule "
                 "with at most B preemptions (B=2 for two writers, 1 for three; thorough 3/2) at storage-call, "
-                "lock and polling-sleep granularity is executed on the real code; states = scheduling decisions "
-                "visited (stateless exploration), transitions = scheduling steps executed; an execution counts as "
+                "lock and polling-sleep granularity is executed on the real code; states = distinct (per-thread "
+                "progress, directory image signature) pairs seen at scheduling decisions, summed over "
+                "configurations; transitions = scheduling steps executed; an execution counts as "
                 "non-trivial when it deviates from the default non-preemptive schedule")
     ctx.assumptions = ["threads share the index only through the storage layer and the lock objects (scheduling "
                        "points there are sufficient); time is virtual: polling sleeps advance a virtual clock",
